@@ -260,3 +260,105 @@ Proof.
   destruct (top_sort_finish_ordered g Hwf) as [Hall Hfin].
   apply (kosaraju_phase2 g gt (top_sort g) Hwf Htr Hall Hfin).
 Qed.
+
+(** * symm_par does not depend on the schedule: it returns what symm_seq returns *)
+Section TwoVisits.
+  Variable g : graph.
+  Hypothesis Hwf : wf_graph g.
+  Hypothesis Hsym : symmetric g.
+  Variables visit1 visit2 : nat -> list nat -> list nat.
+  Hypothesis Hv1 : visit_spec g visit1.
+  Hypothesis Hv2 : visit_spec g visit2.
+  Variable roots : list nat.
+  Hypothesis Hroots : Forall (fun r => r < length g) roots.
+
+  Let cinv' := cinv g (reachable g).
+
+  Lemma two_step : forall l1 r l2 vis1 vis2 comp k,
+    roots = l1 ++ r :: l2 ->
+    cinv' vis1 comp k -> cinv' vis2 comp k -> incl l1 vis1 -> incl l1 vis2 ->
+    (forall x, In x vis1 <-> In x vis2) ->
+    let '(vis1', comp1', k1') := comp_step visit1 (vis1, comp, k) r in
+    let '(vis2', comp2', k2') := comp_step visit2 (vis2, comp, k) r in
+    cinv' vis1' comp1' k1' /\ cinv' vis2' comp2' k2' /\ incl (l1 ++ [r]) vis1' /\ incl (l1 ++ [r]) vis2'
+    /\ (forall x, In x vis1' <-> In x vis2') /\ comp1' = comp2' /\ k1' = k2'.
+  Proof.
+    intros l1 r l2 vis1 vis2 comp k Hs C1 C2 L1 L2 Heq.
+    pose proof (comp_step_inv g (reachable g) visit1 roots Hv1 (reachable_sym g Hsym) (reachable_trans g)
+                  (fun r x H => H) Hroots (fun l1 r l2 V _ _ _ _ _ x H _ => H) l1 r l2 vis1 comp k Hs C1 L1) as S1.
+    pose proof (comp_step_inv g (reachable g) visit2 roots Hv2 (reachable_sym g Hsym) (reachable_trans g)
+                  (fun r x H => H) Hroots (fun l1 r l2 V _ _ _ _ _ x H _ => H) l1 r l2 vis2 comp k Hs C2 L2) as S2.
+    unfold comp_step in *.
+    assert (Hm : memb r vis1 = memb r vis2).
+    { destruct (memb r vis1) eqn:H1; destruct (memb r vis2) eqn:H2; try reflexivity.
+      - apply memb_In in H1. apply memb_false in H2. exfalso. apply H2. apply Heq. exact H1.
+      - apply memb_In in H2. apply memb_false in H1. exfalso. apply H1. apply Heq. exact H2. }
+    rewrite <- Hm in *. destruct (memb r vis1) eqn:Hm1.
+    - destruct S1 as [S1 S1']. destruct S2 as [S2 S2'].
+      split; [exact S1|]. split; [exact S2|]. split; [exact S1'|]. split; [exact S2'|].
+      split; [exact Heq|]. split; reflexivity.
+    - destruct S1 as [S1 S1']. destruct S2 as [S2 S2'].
+      split; [exact S1|]. split; [exact S2|]. split; [exact S1'|]. split; [exact S2'|].
+      apply memb_false in Hm1. assert (Hm2 : ~ In r vis2) by (intros H; apply Hm1; apply Heq; exact H).
+      assert (Hr : r < length g).
+      { rewrite Forall_forall in Hroots. apply Hroots. rewrite Hs. apply in_or_app. right. left. reflexivity. }
+      destruct C1 as [A1 [A2 [A3 [A4 _]]]]. destruct C2 as [B1 [B2 [B3 [B4 _]]]].
+      pose proof (visit_spec_reach g visit1 Hv1 r vis1 Hr Hm1 A1 A2 A3) as R1.
+      pose proof (visit_spec_reach g visit2 Hv2 r vis2 Hr Hm2 B1 B2 B3) as R2.
+      assert (Heq' : forall x, In x (visit1 r vis1) <-> In x (visit2 r vis2)).
+      { intros x. rewrite R1, R2, Heq. reflexivity. }
+      split; [exact Heq'|]. split; [|reflexivity].
+      destruct (Hv1 r vis1 Hr Hm1 A1 A2 A3) as [N1 [_ [[nw1 E1] _]]].
+      destruct (Hv2 r vis2 Hr Hm2 B1 B2 B3) as [N2 [_ [[nw2 E2] _]]].
+      rewrite E1, E2 in *. rewrite !assign_new_app.
+      apply (nth_ext _ _ 0 0); [rewrite !assign_length; reflexivity|].
+      intros v Hv. rewrite assign_length in Hv. rewrite !assign_nth by exact Hv.
+      assert (Hnw : memb v nw1 = memb v nw2).
+      { assert (Hiff : In v nw1 <-> In v nw2).
+        { split; intros Hin.
+          - assert (H : In v (nw2 ++ vis2)) by (apply Heq'; apply in_or_app; left; exact Hin).
+            apply in_app_or in H. destruct H as [H|H]; [exact H|].
+            exfalso. apply (nodup_app_disj _ _ v N1 Hin). apply Heq. exact H.
+          - assert (H : In v (nw1 ++ vis1)) by (apply Heq'; apply in_or_app; left; exact Hin).
+            apply in_app_or in H. destruct H as [H|H]; [exact H|].
+            exfalso. apply (nodup_app_disj _ _ v N2 Hin). apply Heq. exact H. }
+        destruct (memb v nw1) eqn:H1; destruct (memb v nw2) eqn:H2; try reflexivity.
+        - apply memb_In in H1. apply memb_false in H2. exfalso. apply H2. apply Hiff. exact H1.
+        - apply memb_In in H2. apply memb_false in H1. exfalso. apply H1. apply Hiff. exact H2. }
+      rewrite Hnw. reflexivity.
+  Qed.
+
+  Lemma two_fold : forall l2 l1 vis1 vis2 comp k,
+    roots = l1 ++ l2 ->
+    cinv' vis1 comp k -> cinv' vis2 comp k -> incl l1 vis1 -> incl l1 vis2 ->
+    (forall x, In x vis1 <-> In x vis2) ->
+    let '(_, comp1', k1') := fold_left (comp_step visit1) l2 (vis1, comp, k) in
+    let '(_, comp2', k2') := fold_left (comp_step visit2) l2 (vis2, comp, k) in
+    comp1' = comp2' /\ k1' = k2'.
+  Proof.
+    induction l2 as [|r l2 IH]; intros l1 vis1 vis2 comp k Hs C1 C2 L1 L2 Heq.
+    - cbn. split; reflexivity.
+    - cbn [fold_left].
+      pose proof (two_step l1 r l2 vis1 vis2 comp k Hs C1 C2 L1 L2 Heq) as H.
+      destruct (comp_step visit1 (vis1, comp, k) r) as [[vis1' comp1'] k1'].
+      destruct (comp_step visit2 (vis2, comp, k) r) as [[vis2' comp2'] k2'].
+      destruct H as [D1 [D2 [M1 [M2 [Heq' [Hc Hk]]]]]]. subst comp2' k2'.
+      apply (IH (l1 ++ [r])); try assumption. rewrite <- app_assoc. exact Hs.
+  Qed.
+End TwoVisits.
+
+Theorem symm_par_eq_seq : S_symm_par_eq_seq.
+Proof.
+  intros sched g Hs Hwf Hsym. unfold symm_par, symm_seq, comp_loop.
+  assert (Hinit : cinv g (reachable g) [] (repeat 0 (length g)) 0).
+  { split; [constructor|]. split; [constructor|]. split; [intros x y []|].
+    split; [apply repeat_length|]. split; [intros u []|]. split; [intros c Hc; lia|].
+    split; [intros u v []|intros u v []]. }
+  pose proof (two_fold g Hsym (bfs_visit sched g) (dfs_visit g) (bfs_visit_spec sched g Hs Hwf)
+                (dfs_visit_spec g Hwf) (seq 0 (length g)) (seq_all _) (seq 0 (length g)) []
+                [] [] (repeat 0 (length g)) 0 eq_refl Hinit Hinit (incl_nil_l _) (incl_nil_l _)
+                (fun x => iff_refl _)) as H.
+  destruct (fold_left (comp_step (bfs_visit sched g)) (seq 0 (length g)) ([], repeat 0 (length g), 0)) as [[v1 c1] k1].
+  destruct (fold_left (comp_step (dfs_visit g)) (seq 0 (length g)) ([], repeat 0 (length g), 0)) as [[v2 c2] k2].
+  destruct H as [Hc Hk]. subst. reflexivity.
+Qed.
